@@ -119,8 +119,22 @@ def job_color(job):
                 continue
         ans = native.ask('wasm_color %d %s' % (which, OV.hexs(txt)))
         confirmed = ans.startswith('PANIC') or ans == 'ABORT'
-        res['failures'].append({'key': 'C17/color.parse-unwrap', 'confirmed': confirmed, 'obligation': lab,
-                                'what': ('SvgOptions::%s(%r) panics: %s' % (SETTERS[which], txt.decode('latin1'), ans[:90])) if confirmed else 'model %r does not panic natively (%s)' % (txt, lab),
+        what = ('SvgOptions::%s(%r) panics: %s' % (SETTERS[which], txt.decode('latin1'), ans[:90])) if confirmed else 'model %r does not panic natively (%s)' % (txt, lab)
+        key = 'C17/color.parse-unwrap'
+        if not confirmed:
+            # the setter returned: does it hold a colour that is not 4 components (which the export later cannot convert)?
+            import re as _re
+            fld = ['module_color', 'background_color', 'image_background_color'][which]
+            mm = _re.search(r'\b%s: \[([^\]]*)\]' % fld, ans)
+            comps = [x for x in mm.group(1).split(',') if x.strip()] if mm else None
+            if comps is not None and len(comps) != 4:
+                arg = {0: 'fg', 1: 'bg', 2: 'ibg'}[which]
+                a2 = native.ask('wasm_svg %s margin=4 %s=%s' % (OV.hexs(b'test'), arg, OV.hexs(txt)))
+                confirmed = True
+                key = 'C17/color.components'
+                what = 'SvgOptions::%s(%r) stores %d components%s' % (SETTERS[which], txt.decode('latin1'), len(comps),
+                                                                      ('; qr_svg with these options then panics: %s' % a2[:80]) if a2.startswith('PANIC') else '')
+        res['failures'].append({'key': key, 'confirmed': confirmed, 'obligation': lab, 'what': what,
                                 'replay': {'request': 'wasm_color %d %s' % (which, OV.hexs(txt))}})
     res['vacuity'] = 1
     # translator validation: a well-formed colour through the native setter
@@ -342,7 +356,7 @@ def job_qr_svg(job):
     for lab, model in fails[:1]:
         # native differential: the wasm export against the native builder configured with the same values, for a few
         # concrete settings of this option state (zero / negative / fractional gaps, positions, margins)
-        key = 'C17/qr_svg.position-guard' if (has_size != has_pos) else 'C17/qr_svg'
+        key = 'C17/qr_svg.colours' if 'colour' in lab else ('C17/qr_svg.position-guard' if (has_size != has_pos) else 'C17/qr_svg')
         confirmed, what, req = False, '%s: %s (not reproduced natively)' % (name, lab), ''
         content = b'test'
         if opaque:
@@ -360,12 +374,19 @@ def job_qr_svg(job):
                                             'the empty string' if native.ask('wasm_svg %s margin=4' % OV.hexs(b'7' * nd)) in ('-', '') else 'a document', lab),
                                         'replay': {'request': 'wasm_svg %s margin=4' % ('37' * nd)}})
                 continue
+        base = native.ask('build %s - - - -' % OV.hexs(content))
         fb = OV.parse_fields(base)
         mod = fb['data']
         vq = int(fb['version'])
-        for (sz, gp, posv, mg) in ((7.0, 0.0, (12.0, 13.0), 4), (5.0, 1.5, (10.0, 10.0), 2), (6.0, -1.0, (9.5, 11.0), 0), (8.0, 2.0, (15.0, 9.0), 7)):
+        for (sz, gp, posv, mg, cols) in ((7.0, 0.0, (12.0, 13.0), 4, None), (5.0, 1.5, (10.0, 10.0), 2, ('11223344', 'aabbcc80', '01020300')),
+                                         (6.0, -1.0, (9.5, 11.0), 0, ('fedcba', '00ff0001', 'ffffffff')), (8.0, 2.0, (15.0, 9.0), 7, None)):
             req = 'wasm_svg %s margin=%d' % (OV.hexs(content), mg)
             nreq = 'svg v=%d mod=%s margin=%d layers=0 fg=000000ff bg=ffffffff ibg=ffffffff ishape=0' % (vq, mod, mg)
+            if cols is not None:
+                # colours given to the export as #rrggbb[aa] strings, to the native builder as the same RGBA bytes
+                full = [c if len(c) == 8 else c + 'ff' for c in cols]
+                req += ' fg=%s bg=%s ibg=%s' % tuple(OV.hexs(('#' + c).encode()) for c in cols)
+                nreq = 'svg v=%d mod=%s margin=%d layers=0 fg=%s bg=%s ibg=%s ishape=0' % (vq, mod, mg, full[0], full[1], full[2])
             if has_size:
                 req += ' size=%r,%r' % (sz, gp)
                 nreq += ' isize=%r igap=%r' % (sz, gp)
